@@ -743,7 +743,30 @@ fn exec(plan: &Plan, out: &mut RunOut) {
             let enc = if *rlp {
                 if *nested {
                     match rlp_encode(bits, &x, Some(&y)) {
-                        Some(Ok(b)) => Some(b),
+                        Some(Ok(b)) => {
+                            // oracle 1 for the list route (RlpStream::new_list(2) + append x2): canonical list of canonical items
+                            let mut body = codec::rlp_encode(&x);
+                            body.extend(codec::rlp_encode(&y));
+                            let mut want = if body.len() < 56 {
+                                vec![0xc0 + body.len() as u8]
+                            } else {
+                                let lb: Vec<u8> = body.len().to_be_bytes().iter().copied().skip_while(|&v| v == 0).collect();
+                                let mut h = vec![0xf7 + lb.len() as u8];
+                                h.extend(lb);
+                                h
+                            };
+                            want.extend(body);
+                            out.ev(&format!("enc/rlp-list/{}/{}", bits, b.len()));
+                            if b != want {
+                                out.viol(
+                                    "C18/rlp-encode-noncanonical",
+                                    format!("w{}:list2:{}+{}", bits, value_class(bits, &x), value_class(bits, &y)),
+                                    format!("list of ({:#x}, {:#x}) encoded as {}, canonical {}", x, y, hex(&b[..b.len().min(40)]), hex(&want[..want.len().min(40)])),
+                                    serde_json::to_value(Plan::Record { bits, rlp: true, value_be: x.to_bytes_be(), second_be: y.to_bytes_be(), nested: true, faults: vec![] }).ok(),
+                                );
+                            }
+                            Some(b)
+                        }
                         Some(Err(p)) => {
                             out.viol("C11/unexpected-panic", format!("rlp-encode:{}", p.location), p.message.clone(), None);
                             None
